@@ -864,6 +864,11 @@ fn mutations(enc: &[u8]) -> Vec<Vec<u8>> {
     // text encodings (JSON, decimal / hex text): at EVERY position a sign, a separator, a blank or a non-digit letter
     if !enc.is_empty() && enc.iter().all(|b| b.is_ascii_graphic()) {
         for i in 0..enc.len() {
+            // long texts: the first 24 and last 4 positions and every position within 1 of a multiple of 8 from either end
+            let j = enc.len() - 1 - i;
+            if enc.len() > 80 && i >= 24 && j >= 4 && ![0, 1, 7].contains(&(i % 8)) && ![0, 1, 7].contains(&(j % 8)) {
+                continue;
+            }
             for x in *b"+-_ g" {
                 let mut e = enc.to_vec();
                 e[i] = x;
